@@ -83,11 +83,13 @@ def putScalar (k : Kind) (e : Endian) (t : Ty) (v : Nat) : List UInt8 :=
   | .sb, .i8 => [UInt8.ofNat v]
   | _, _ => putGeneric (scalarSwap k e) (sizeofT t) v
 
-def arraySwap (k : Kind) (e : Endian) : Bool :=
+/-- the test of `operator<<(const Array<T>&)`: `_endian == OTHER || !IsArithmetic<T>::value`
+    (`arith` = the element type is a built-in arithmetic type) -/
+def arraySwap (k : Kind) (e : Endian) (arith : Bool) : Bool :=
   match k with
-  | .sb => sbArraySwap e
-  | .file => fileArraySwap e
-  | .sock => sockArraySwap e
+  | .sb => sbArraySwap e arith
+  | .file => fileArraySwap e arith
+  | .sock => sockArraySwap e arith
 
 def arrayCount (k : Kind) (len size : Nat) : Nat :=
   match k with
@@ -100,15 +102,22 @@ def arrayMem (t : Ty) (vs : List Nat) : List UInt8 :=
   vs.flatMap (objRep (sizeofT t))
 
 /-- `stream << Array<T>`: `Array<byte>` has its own overload (`write(x.data(), x.length())`); otherwise
-    `if (_endian == OTHER) foreach(y, x) *this << y; else write(&x[0], COUNT);`
+    `if (_endian == OTHER || !IsArithmetic<T>::value) foreach(y, x) *this << y; else write(&x[0], COUNT);`
     `take` models `write` reading `COUNT` bytes from the array's storage; that `COUNT` never exceeds
     the storage is theorem `C16.array_write_in_bounds`. -/
 def putArray (k : Kind) (e : Endian) (t : Ty) (vs : List Nat) : List UInt8 :=
   match t with
   | .u8 => vs.map UInt8.ofNat
   | _ =>
-    if arraySwap k e then vs.flatMap (putScalar k e t)
+    if arraySwap k e (arithT t) then vs.flatMap (putScalar k e t)
     else (arrayMem t vs).take (arrayCount k vs.length (sizeofT t))
+
+/-- `stream << Array<String>`: the item-by-item branch sends every string through `operator<<(const String&)`
+    (its bytes, whatever the byte order); the one-block branch would write the String *objects'* memory
+    (pointers, uninitialised bytes), which has no model: `none`.  Theorem `C16.string_array_canonical` shows the
+    block branch is never taken (it was, in native order, before commit 8a61870). -/
+def putStrArray (k : Kind) (e : Endian) (ss : List (List UInt8)) : Option (List UInt8) :=
+  if arraySwap k e arithString then some (ss.flatMap id) else none
 
 /-- `stream << const char*`: `write(x, strlen(x))` -/
 def putCStr (bs : List UInt8) : List UInt8 := bs.takeWhile (· != 0)
@@ -120,6 +129,7 @@ inductive WOp where
   | array (t : Ty) (vs : List Nat)
   | bytes (bs : List UInt8)      -- ByteArray / String: `write(data, length)`
   | cstr (bs : List UInt8)       -- const char*
+  | strArray (ss : List (List UInt8))   -- Array<String>
 deriving Repr
 
 /-- new byte order and the bytes appended by the operation -/
@@ -129,6 +139,7 @@ def writeOp (k : Kind) (e : Endian) : WOp → Endian × List UInt8
   | .array t vs => (e, putArray k e t (vs.map (norm t)))
   | .bytes bs => (e, bs)
   | .cstr bs => (e, putCStr bs)
+  | .strArray ss => (e, (putStrArray k e ss).getD [])   -- never `none`: `C16.string_array_canonical`
 
 /-- a whole write history: final byte order and everything written -/
 def writeAll (k : Kind) : Endian → List WOp → Endian × List UInt8
@@ -201,15 +212,53 @@ def getScalar (k : Kind) (e : Endian) (t : Ty) (bs : List UInt8) : Nat × List U
     | .u8 => getGeneric false 1 bs
     | _ => getGeneric (readSwap k e) (sizeofT t) bs
 
+def rArraySwap (k : Kind) (e : Endian) (arith : Bool) : Bool :=
+  match k with
+  | .sb => true
+  | .file => fileRArraySwap e arith
+  | .sock => sockRArraySwap e arith
+
+def rArrayCount (k : Kind) (len size : Nat) : Nat :=
+  match k with
+  | .sb => len * size
+  | .file => fileRArrayCount len size
+  | .sock => sockRArrayCount len size
+
+/-- `n` successive `*this >> x[i]` -/
+def getMany (k : Kind) (e : Endian) (t : Ty) : Nat → List UInt8 → List Nat × List UInt8
+  | 0, bs => ([], bs)
+  | n + 1, bs =>
+    let r := getScalar k e t bs
+    let r' := getMany k e t n r.2
+    (r.1 :: r'.1, r'.2)
+
+/-- the elements of an `Array<T>` whose storage was filled by `read(&x[0], …)` with the bytes `bs`
+    (`n` elements of `w` bytes; missing bytes leave the element as it was — modelled as 0 — but the driver and
+    the theorems only use it with all the bytes present) -/
+def memVals (w : Nat) : Nat → List UInt8 → List Nat
+  | 0, _ => []
+  | n + 1, bs => objVal (bs.take w) :: memVals w n (bs.drop w)
+
+/-- File/Socket `stream >> Array<T>` for an array of length `n` (commit cdda882):
+    `if (_endian == OTHER || !IsArithmetic<T>::value) for (i < n) *this >> x[i]; else read(&x[0], COUNT);`
+    (StreamBufferReader has no such operator.) -/
+def getArray (k : Kind) (e : Endian) (t : Ty) (n : Nat) (bs : List UInt8) : List Nat × List UInt8 :=
+  if rArraySwap k e (arithT t) then getMany k e t n bs
+  else
+    let c := rArrayCount k n (sizeofT t)
+    (memVals (sizeofT t) n (bs.take c), bs.drop c)
+
 def need (k : Kind) (t : Ty) : Nat :=
   match k with
   | .sb => sbrNeed t
   | _ => sizeofT t
 
-/-- `File::operator>>(String&)`: `int n; *this >> n; x.resize(n); read(&x[0], n);` keeps `n` bytes;
-    `Socket::operator>>(String&)`: `*this >> n; x = readString(n)` where `readString` ends with `s.fix()`
-    (`strlen`), so the result stops at the first NUL.  `none` = the guard of the op fails (fewer than 4 bytes,
-    negative length or fewer than `n` bytes left); StreamBufferReader has no such operator. -/
+/-- `File::operator>>(String&)` (after commit e37681a): `int n = 0; *this >> n;` then at most `n` bytes in blocks —
+    a negative `n` gives the empty string, an `n` beyond the end what is there.
+    `Socket::operator>>(String&)`: `*this >> n; x = readString(n)`; `readString` treats a negative `n` as 0 and ends
+    with `s.fix()` (`strlen`), so the result stops at the first NUL; with fewer than `n` bytes pending it would block
+    (and allocates `n` bytes first): `none`, as for fewer than 4 bytes (partial length) and for StreamBufferReader,
+    which has no such operator. -/
 def getString (k : Kind) (e : Endian) (bs : List UInt8) : Option (List UInt8 × List UInt8) :=
   match k with
   | .sb => none
@@ -217,23 +266,24 @@ def getString (k : Kind) (e : Endian) (bs : List UInt8) : Option (List UInt8 × 
     if bs.length < 4 then none else
     let r := getScalar k e .i32 bs
     let n := r.1
-    if n ≥ 2 ^ 31 then none
-    else if r.2.length < n then none
-    else
-      let s := r.2.take n
-      some ((if k == .sock then s.takeWhile (· != 0) else s), r.2.drop n)
+    if n ≥ 2 ^ 31 then some ([], r.2)
+    else if k == .sock then
+      if r.2.length < n then none else some ((r.2.take n).takeWhile (· != 0), r.2.drop n)
+    else some (r.2.take n, r.2.drop n)
 
 inductive ROp where
   | setEndian (e : Endian)
   | scalar (t : Ty)
   | bytes (n : Nat)      -- read(n) / read(p, n)
   | skip (n : Nat)
+  | array (t : Ty) (n : Nat)   -- `>> Array<T>` of length n (File, Socket)
 deriving Repr
 
 inductive RVal where
   | none
   | val (t : Ty) (v : Nat)
   | bytes (bs : List UInt8)
+  | vals (t : Ty) (vs : List Nat)
 deriving Repr, DecidableEq
 
 /-- one read operation on the remaining bytes (precondition: enough bytes, checked by the driver) -/
@@ -242,6 +292,7 @@ def readOp (k : Kind) (e : Endian) (bs : List UInt8) : ROp → Endian × List UI
   | .scalar t => let r := getScalar k e t bs; (e, r.2, .val t r.1)
   | .bytes n => (e, bs.drop n, .bytes (bs.take n))
   | .skip n => (e, bs.drop n, .none)
+  | .array t n => let r := getArray k e t n bs; (e, r.2, .vals t r.1)
 
 /-- a whole read history: final byte order, the values returned, the bytes left -/
 def readAll (k : Kind) : Endian → List UInt8 → List ROp → Endian × List RVal × List UInt8
